@@ -17,7 +17,8 @@ From Coq Require Import Lia.
 From Verif Require Import Base.Prelude Base.Str Base.Float Base.GoVal Base.XReflect
   Schema.Regex Schema.Units Schema.Syntax Schema.Ops Schema.Wf Schema.Total Schema.XSyntax Schema.XOps Schema.XWf
   Proofs.MonoEq Proofs.C04Inv Proofs.OpsEq Proofs.C04NoPanic Proofs.C04Term Proofs.XOpsEq
-  Proofs.XStruct Proofs.XTotal Proofs.XExamples Proofs.XMono Proofs.XTerm.
+  Proofs.XStruct Proofs.XTotal Proofs.XExamples Proofs.XMono Proofs.XTerm
+  Proofs.C04Refuted Proofs.XEmbed Proofs.XWfEmbed.
 Open Scope string_scope.
 
 (* ---------- the non-consuming walk ---------- *)
@@ -632,3 +633,27 @@ Theorem xt_excludes_d11_d50 :
   (forall K, xterminating w_words w_pu K (xs_env []) xt_d11 = false) /\
   xterminating w_words w_pu 50 (xs_env []) xt_d50 = false.
 Proof. split; [intros K|]; vm_compute; reflexivity. Qed.
+
+(* in general: a schema with an input on which Unserialize has no sufficient fuel is outside the class, for every K;
+   so are the D11 and D50 witnesses of the map-based model (Proofs/C04Refuted.v), embedded, both well-formed *)
+Theorem xt_divergent_excluded : forall words pu (e : xenv) (s : xschema) (v : gval),
+  (forall fuel, xunser words pu fuel e s v = OutOfFuel) -> forall K, xterminating words pu K e s = false.
+Proof.
+  intros words pu e s v Hdiv K. destruct (xterminating words pu K e s) eqn:E; [|reflexivity].
+  exfalso. destruct (x_struct_terminates words pu K e s v E _ (le_n _)) as [Hu _]. apply Hu, Hdiv.
+Qed.
+
+Theorem xt_excludes_embedded_d11_d50 : forall words pu st K,
+  xterminating words pu K (embed_env st d11_env) (embed d11_scope) = false /\
+  xterminating words pu K (embed_env st d50_env) (embed d50_scope) = false /\
+  xwf (embed_env st d11_env) (embed d11_scope) = true /\ xwf (embed_env st d50_env) (embed d50_scope) = true.
+Proof.
+  intros words pu st K.
+  assert (H11 : xterminating words pu K (embed_env st d11_env) (embed d11_scope) = false).
+  { apply (xt_divergent_excluded words pu (embed_env st d11_env) (embed d11_scope) d11_input). intros fuel.
+    rewrite (x_embed_unser st words pu). apply d11_diverges. }
+  assert (H50 : xterminating words pu K (embed_env st d50_env) (embed d50_scope) = false).
+  { apply (xt_divergent_excluded words pu (embed_env st d50_env) (embed d50_scope) d50_empty). intros fuel.
+    rewrite (x_embed_unser st words pu). apply d50_diverges. }
+  split; [exact H11 | split; [exact H50 | split; rewrite xwf_embed; [apply d11_wf | apply d50_wf]]].
+Qed.
